@@ -1623,7 +1623,17 @@ class SymbolicDim(_protocols.SymbolicDimProtocol, _display.PrettyPrintable):
         """
         if self._expr is None:
             return SymbolicDim(None)
-        return SymbolicDim(sympy.simplify(self._expr))
+        try:
+            simplified = sympy.simplify(self._expr)
+        except ZeroDivisionError:
+            # sympy.simplify may probe sub-expressions such as Mod(x, 0) while rewriting sign()
+            return SymbolicDim(self._expr)
+        if simplified.has(sympy.Piecewise):
+            # sympy.simplify rewrites sign()/Abs() into Piecewise((..., Eq(...)), ...), which the
+            # dimension grammar (the text stored in dim_param) cannot express and whose unused
+            # branch may divide by zero on evaluation. Keep the unsimplified expression instead.
+            return SymbolicDim(self._expr)
+        return SymbolicDim(simplified)
 
     def evaluate(self, bindings: Mapping[str, int]) -> int | SymbolicDim:
         """Evaluate the symbolic dimension with concrete values.
